@@ -142,9 +142,16 @@ class _CenterManifoldDynamicsService(_DynamicsServiceBase):
         :class:`~hiten.algorithms.hamiltonian.pipeline.HamiltonianPipeline`
             The pipeline.
         """
-        if degree != self._degree:
-            self.degree = degree
-        return self.pipeline
+        if degree == self._degree:
+            return self.pipeline
+        # a query for another degree must not change the working degree of the
+        # centre manifold (it used to, and only on a cache miss)
+        cache_key = self.make_key("pipeline", degree)
+
+        def _factory():
+            return self._ham_pipeline.get(self.point, degree)
+
+        return self.get_or_create(cache_key, _factory)
 
     def clear_caches(self) -> None:
         """Clear the caches."""
